@@ -239,12 +239,19 @@ func (s *AccumulatingGroup) Groups(sort sorting.NameSorter) []GroupKey {
 	}
 	if s.sortExpr != nil {
 		ctx := accumulatorGroupSortContext{}
-		sorting.SortBy(ret, sort, func(x GroupKey) string {
+		sortKey := func(x GroupKey) string {
 			ctx.groupKey = string(x)
 			ctx.rowLookup = func(row string) string {
 				return s.data[x][s.colIdxLookup[row]]
 			}
 			return s.sortExpr.BuildKey(&ctx)
+		}
+		sorting.Sort(ret, func(a, b GroupKey) bool {
+			ka, kb := sortKey(a), sortKey(b)
+			if ka == kb {
+				return a < b // equal sort keys: order by group, not by map iteration
+			}
+			return sort(ka, kb)
 		})
 	} else {
 		sorting.SortBy(ret, sort, func(x GroupKey) string {
